@@ -649,16 +649,51 @@ func c14R6(p *Prog, r *Report) {
 			r.Check(!reach[rc.V] && !gs.G.Reach([]int{rc.V}, nil, nil)[snapCalls[0].V], rule, "api/ssm.handleGetStats:exclusive", rc.Pos(), "the two are alternatives", "both Snapshot and SnapshotAndReset can run for one request")
 		}
 	}
-	// the encoded value is the snapshot variable itself
+	// the encoded value is the snapshot itself: the result of Snapshot / SnapshotAndReset passed
+	// directly, or a variable whose every definition reaching the encoder is such a result
+	isSnap := func(e ast.Expr) bool {
+		c, ok := ast.Unparen(e).(*ast.CallExpr)
+		if !ok {
+			return false
+		}
+		for _, sc := range append(append([]CallSite{}, snapCalls...), resetCalls...) {
+			if sc.Call == c {
+				return true
+			}
+		}
+		return false
+	}
 	encOK := false
+	nEnc := 0
 	for _, cs := range gs.AllCalls() {
 		if cs.Fn != nil && cs.Fn.Name() == "EncodeResponse" && len(cs.Call.Args) == 3 {
-			o := objOf(info, cs.Call.Args[2])
-			if o != nil && len(snapCalls) == 1 && snapCalls[0].ResultVar(0) == o {
+			nEnc++
+			arg := cs.Call.Args[2]
+			good := isSnap(arg)
+			if o := objOf(info, arg); o != nil && !good {
+				defs := gs.ReachingDefs(cs.V, o)
+				good = len(defs) > 0
+				for _, d := range defs {
+					okDef := false
+					if d != gs.G.Entry {
+						if as, isAs := gs.G.V[d].Node.(*ast.AssignStmt); isAs && len(as.Lhs) == 1 && len(as.Rhs) == 1 && isSnap(as.Rhs[0]) {
+							okDef = true
+						}
+					}
+					if !okDef {
+						good = false
+					}
+				}
+			}
+			if good {
 				encOK = true
+			} else {
+				encOK = false
+				break
 			}
 		}
 	}
+	_ = nEnc
 	r.Check(encOK, rule, "api/ssm.handleGetStats:returns-snapshot-unmodified", p.posStr(gs.Body.Pos()), "the encoded value is the snapshot variable", "the encoded response is not the snapshot itself")
 
 	gu := p.Func("api/ssm", "", "handleGetUser")
